@@ -76,9 +76,23 @@ Proof.
   - constructor; [|constructor]. unfold out_ok. cbn [snd finish co_version]. exact Ho.
 Qed.
 
+Lemma leave_waiter_inv s i : Inv s ->
+  Inv (finish (mkCo (co_entry s) (co_now s) (co_active s) (without i (co_waiters s)) (co_nfetch s) (co_version s) (co_done s) (co_maxin s)) i gone).
+Proof.
+  intros I. pose proof I as [A B C D E]. apply finish_inv; [|intros [H _]; discriminate].
+  constructor; cbn [co_waiters co_active co_maxin co_entry co_version co_done]; try assumption.
+  intros Hw. apply A. intros Hn. apply Hw. rewrite Hn. reflexivity.
+Qed.
+
 Theorem step_inv maxage swr s a : Inv s -> Inv (cstep maxage swr s a).
 Proof.
-  intros I. pose proof I as [A B C D E]. destruct a as [i|k how|i|dt]; cbn [cstep].
+  intros I. pose proof I as [A B C D E]. destruct a as [i|k how|i|dt|i]; cbn [cstep].
+  5: {
+    pose proof (leave_waiter_inv s i I) as W.
+    destruct (is_done s i); [exact I|].
+    destruct (co_active s) as [[[[k j] cond] t0]|] eqn:Ea; [|exact W].
+    destruct (Nat.eqb j i); [|exact W].
+    apply released_inv; [exact I|lia|exact C|intros [H _]; discriminate]. }
   - apply lookup_inv. exact I.
   - destruct (co_active s) as [[[[k' i] cond] t0]|] eqn:Ea; [|exact I].
     destruct (Nat.eqb k k'); cbn [negb]; [|exact I].
